@@ -67,7 +67,7 @@ func Format(src string) (string, parser.TemplateFile, error) {
 	return b.String(), tf, nil
 }
 
-var wsRun = regexp.MustCompile(`\n[\t ]*`)
+var wsRun = regexp.MustCompile(`\r?\n[\t ]*`)
 
 // Mutations: join lines / change the whitespace run between tokens inside the template part of a file.
 func Mutations(r *rng.R, base string, n int) []string {
